@@ -133,7 +133,7 @@ def run(ctx):
     ctx.validated(len(runs))
     ctx.note("normalisations_exercised", used_total)
     first = lambda pre: [c for c in cases if c["src"].startswith(pre)][:1]
-    for c in cases[:3] + first("std/") + first("focus/quote") + first("focus/comment") + first("focus/doc"):
+    for c in cases[:3] + first("std/") + first("focus/quote") + first("focus/comment") + first("focus/doc") + first("focus/semi"):
         ctx.sample({"src": c["src"], "text": c["text"][:200],
                     "cfg": c["cfg"] if c["src"].startswith("focus/") else _fmt.model_cfg(c["cfg"])})
     for sig, ds in sorted(found.items()):
@@ -142,7 +142,8 @@ def run(ctx):
     ctx.rule("a case = (program, configuration); programs: every single statement of FmtGen.tla x 4 corner configurations "
              "(sampled in quick), TLC-simulated multi-statement programs x random lattice points, bundled std files x "
              "lattice points; FmtFocus.tla families: strings with escape sequences next to quotes x quote_style x call-parens, "
-             "trailing-comment groups x comment options, doc blocks x emmy_doc options; "
+             "trailing-comment groups x comment options, doc blocks x emmy_doc options, `stat;` + comments + `(`-statement "
+             "(family semi), blank lines directly inside brackets / blocks (family blank); "
              "non-trivial = source without syntax errors and >= 3 tokens")
     ctx.assume("tokens are those of emmylua_parser on both sides (a token the lexer loses on both sides is invisible here; C01)")
     ctx.assume("allowed normalisations as written in spec/FmtTokens.tla; `;` <-> `,` between table fields counts as a separator normalisation")
